@@ -63,23 +63,25 @@ type Task struct {
 
 // Sched is one run's scheduler.
 type Sched struct {
-	mu          sync.Mutex
-	tasks       map[uint64]*Task // by goroutine id
-	order       []*Task          // all tasks ever created (deterministic order of creation is NOT assumed; sorted by name on use)
-	rootGID     uint64
-	wakeRoot    chan struct{}
-	aborting    atomic.Bool
-	locks       map[uintptr]*lockState
-	anon        map[string]int
-	ch          Chooser
-	Steps       int
-	last        *Task
-	Trace       func(string) // optional: receives one line per scheduling decision
-	SigHash     uint64       // running hash of (task, kind, site) decisions
-	LockYield   bool         // park at every lock acquisition (true) or only when contended (false)
-	UnlockYield bool         // park right after every release (exposes lock scopes that end too early)
-	HeldYield   bool         // park right after every uncontended acquisition too, i.e. inside the critical section
-	StayNum     int          // stay-bias: with probability StayNum/StayDen keep running the last task if enabled
+	mu        sync.Mutex
+	tasks     map[uint64]*Task // by goroutine id
+	order     []*Task          // all tasks ever created (deterministic order of creation is NOT assumed; sorted by name on use)
+	rootGID   uint64
+	wakeRoot  chan struct{}
+	aborting  atomic.Bool
+	locks     map[uintptr]*lockState
+	anon      map[string]int
+	ch        Chooser
+	Steps     int
+	last      *Task
+	Trace     func(string) // optional: receives one line per scheduling decision
+	SigHash   uint64       // running hash of (task, kind, site) decisions
+	LockYield bool         // park at every lock acquisition (true) or only when contended (false)
+	// OnTaskPanic, if set, receives panics that escape a task's function (nil: the process crashes)
+	OnTaskPanic func(task string, v any)
+	UnlockYield bool // park right after every release (exposes lock scopes that end too early)
+	HeldYield   bool // park right after every uncontended acquisition too, i.e. inside the critical section
+	StayNum     int  // stay-bias: with probability StayNum/StayDen keep running the last task if enabled
 	StayDen     int
 	// PCT-like priorities (optional): if non-nil, the enabled task with highest priority runs.
 	Prio     map[string]int
@@ -259,7 +261,7 @@ func Go(site string, f func()) {
 		if !s.aborting.Load() {
 			s.park(gid, &Op{Kind: "start", Site: site})
 		}
-		f()
+		s.runTask(t.Name, f)
 	}()
 }
 
@@ -289,8 +291,24 @@ func (s *Sched) Spawn(name string, f func()) {
 		if !s.aborting.Load() {
 			s.park(gid, &Op{Kind: "start", Site: name})
 		}
-		f()
+		s.runTask(name, f)
 	}()
+}
+
+// runTask runs a task's function. A panic that escapes it would take the process down (as it
+// takes the real program down); with OnTaskPanic set it is handed to the world instead, which
+// turns it into a verdict.
+func (s *Sched) runTask(name string, f func()) {
+	if s.OnTaskPanic == nil {
+		f()
+		return
+	}
+	defer func() {
+		if p := recover(); p != nil {
+			s.OnTaskPanic(name, p)
+		}
+	}()
+	f()
 }
 
 // TaskName returns the name of the calling task ("" if unknown / root).
